@@ -13,6 +13,7 @@ Kinds of case (field "kind"):
   groupby  bnp.groupby on a sorted key for every composition of n into groups x every chunking (cuts inside a group, right
            after a group, one-entry chunks); key kinds: text column (ragged), StringEncoding column, integer column,
            ragged array without column
+  chrommap streams.grouped.chromosome_map (with and without reduction) over groupby(stream)
   rechunk  chunk_entries / chunk_lines for every incoming chunking x every n_entries
   graph    computation_graph: StreamNode columns -> ufunc expressions, np.sum / np.mean / np.histogram reductions, compute of
            node / list / tuple / dict, nodes sharing an upstream node (lock step)
@@ -28,6 +29,9 @@ import os
 from .common import Collector, TmpDir, to_py
 
 PID = "C11"
+# exhaustive bound on the number of entries n per kind of case (all 2^(n-1) cut sets for every n up to the bound)
+NMAX = {"quick": {"reduce": 8, "kmers": 6, "groupby": 6, "rechunk": 7, "graph": 7},
+        "thorough": {"reduce": 10, "kmers": 9, "groupby": 8, "rechunk": 10, "graph": 10}}
 
 
 # ----------------------------------------------------------------------------------------------------------------------
@@ -246,7 +250,7 @@ def check_reduce(col, case):
 
 
 def gen_reduce(tier, rng):
-    nmax = 7 if tier == "quick" else 10
+    nmax = NMAX[tier]["reduce"]
     for n in range(1, nmax + 1):
         for cuts in all_cuts(n):
             for op in REDUCE_OPS:
@@ -331,7 +335,7 @@ def check_kmers(col, case):
 
 
 def gen_kmers(tier, rng):
-    nmax = 6 if tier == "quick" else 9
+    nmax = NMAX[tier]["kmers"]
     for n in range(1, nmax + 1):
         for cuts in all_cuts(n):
             for shift in ((0, 3) if n <= 5 else (0,)):
@@ -370,8 +374,9 @@ def check_groupby(col, case):
 
     def run():
         if kk == "ragged-nocolumn":
-            full = bnp.as_encoded_array(names)
-            stream = BnpStream(iter(pieces(full, cuts)))
+            # each chunk is encoded on its own (row-indexing a *sliced* ragged array raises inside npstructures with
+            # this numpy; that is unrelated to streaming)
+            stream = BnpStream(iter([bnp.as_encoded_array(p) for p in pieces(names, cuts)]))
             return [(k, to_py(g)) for k, g in bnp.groupby(stream)]
         if kk == "encoded":
             enc = StringEncoding(GROUP_NAMES)
@@ -381,7 +386,9 @@ def check_groupby(col, case):
         full = BedGraph(chrom, [r[1] for r in rows], [r[2] for r in rows], [r[3] for r in rows])
         stream = NpDataclassStream((p for p in pieces(full, cuts)), dataclass=BedGraph)
         column = "value" if kk == "int" else "chromosome"
-        return [(k, list(zip(to_py(g.chromosome), g.start.tolist(), g.stop.tolist(), g.value.tolist())))
+        def chrom_names(c):
+            return [GROUP_NAMES[i] for i in c.raw().tolist()] if kk == "encoded" else to_py(c)
+        return [(k, list(zip(chrom_names(g.chromosome), g.start.tolist(), g.stop.tolist(), g.value.tolist())))
                 for k, g in bnp.groupby(stream, column)]
 
     got = col.guarded(run, sig, case)
@@ -401,7 +408,7 @@ def check_groupby(col, case):
 
 
 def gen_groupby(tier, rng):
-    nmax = 6 if tier == "quick" else 8
+    nmax = NMAX[tier]["groupby"]
     for n in range(1, nmax + 1):
         for sizes in compositions(n):
             for cuts in all_cuts(n):
@@ -414,6 +421,47 @@ def gen_groupby(tier, rng):
         cs = list(all_cuts(10)) if tier == "thorough" else sampled_cuts(10, rng, 25)
         for cuts in cs:
             yield {"kind": "groupby", "sizes": sizes, "cuts": cuts, "key": "text" if len(cuts) % 2 else "encoded"}
+
+
+# ----------------------------------------------------------------------------------------------------------------------
+# kind "chrommap": streams/grouped.py chromosome_map over the grouped stream of a chunked table
+# ----------------------------------------------------------------------------------------------------------------------
+def check_chrommap(col, case):
+    import bionumpy as bnp
+    from bionumpy.streams import NpDataclassStream
+    from bionumpy.streams.grouped import chromosome_map
+    from bionumpy.datatypes import BedGraph
+    sizes, cuts, op = case["sizes"], case["cuts"], case["op"]
+    rows = group_rows(sizes)
+    sig = "chrommap:" + op
+    col.case(case, contract="chromosome_map over groupby(stream) == per-group value of the whole table")
+
+    def run():
+        full = BedGraph([r[0] for r in rows], [r[1] for r in rows], [r[2] for r in rows], [r[3] for r in rows])
+        stream = NpDataclassStream((p for p in pieces(full, cuts)), dataclass=BedGraph)
+        grouped = bnp.groupby(stream, "chromosome")
+        if op == "map":
+            f = chromosome_map()(lambda data, w: int((data.stop - data.start).sum()) * w + len(data))
+            return [(k, v) for k, v in f(grouped, 10)]
+        f = chromosome_map(reduction=sum)(lambda data, w: int(data.start.sum()) * w)
+        return f(grouped, w=2)
+
+    got = col.guarded(run, sig, case)
+    if got is None:
+        return
+    if op == "map":
+        exp = [(k, (lambda g: sum(r[2] - r[1] for r in g) * 10 + len(g))(list(g))) for k, g in itertools.groupby(rows, key=lambda r: r[0])]
+    else:
+        exp = 2 * sum(r[1] for r in rows)
+    col.check(got == exp, sig + ":differs-from-in-memory", case, "got %r expected %r" % (got, exp))
+
+
+def gen_chrommap(tier, rng):
+    for n in range(1, (5 if tier == "quick" else 7) + 1):
+        for sizes in compositions(n):
+            for cuts in all_cuts(n):
+                for op in ("map", "reduce"):
+                    yield {"kind": "chrommap", "op": op, "sizes": sizes, "cuts": cuts}
 
 
 # ----------------------------------------------------------------------------------------------------------------------
@@ -450,7 +498,7 @@ def check_rechunk(col, case):
 
 
 def gen_rechunk(tier, rng):
-    nmax = 7 if tier == "quick" else 10
+    nmax = NMAX[tier]["rechunk"]
     for n in range(1, nmax + 1):
         for cuts in all_cuts(n):
             for m in range(1, n + 2):
@@ -526,7 +574,7 @@ def check_graph(col, case):
 
 
 def gen_graph(tier, rng):
-    nmax = 6 if tier == "quick" else 9
+    nmax = NMAX[tier]["graph"]
     for n in range(1, nmax + 1):
         for cuts in all_cuts(n):
             for op in GRAPH_OPS:
@@ -585,6 +633,9 @@ def expand_runs(entries, sizes, what):
     return out
 
 
+_GENOMES = {}
+
+
 def check_genomic(col, case):
     import numpy as np
     import bionumpy as bnp
@@ -593,7 +644,9 @@ def check_genomic(col, case):
     from bionumpy.computation_graph import compute
     counts, cuts, cuts2, op = case["counts"], case["cuts"], case.get("cuts2"), case["op"]
     sizes = CHROMS[:len(counts)]
-    genome = bnp.Genome.from_dict(dict(sizes))
+    if len(counts) not in _GENOMES:
+        _GENOMES[len(counts)] = bnp.Genome.from_dict(dict(sizes))
+    genome = _GENOMES[len(counts)]
     rows = genomic_rows(counts)
     sig = "genomic:" + op
     col.case(case, contract="compute(stream pipeline) == per-base model of the whole data")
@@ -678,13 +731,17 @@ def check_genomic(col, case):
         col.check(ok, sig + ":differs-from-in-memory", case, "got %r expected %r" % (got, exp))
 
 
+def genomic_bounds(tier):
+    """(max entries per chromosome, {number of chromosomes: max n})"""
+    return (2, {1: 2, 2: 4, 3: 4, 4: 4}) if tier == "quick" else (3, {1: 3, 2: 6, 3: 6, 4: 5})
+
+
 def gen_genomic(tier, rng):
-    maxper = 2 if tier == "quick" else 3
-    nmax = 5 if tier == "quick" else 7
+    maxper, nmax = genomic_bounds(tier)
     for nchrom in (1, 2, 3, 4):
         for counts in itertools.product(range(maxper + 1), repeat=nchrom):
             n = sum(counts)
-            if n == 0 or n > nmax:
+            if n == 0 or n > nmax[nchrom]:
                 continue
             counts = list(counts)
             for cuts in all_cuts(n):
@@ -692,13 +749,12 @@ def gen_genomic(tier, rng):
                     if op.startswith("track") and not bedgraph_rows(counts):
                         continue
                     if op in ("values", "values:stranded", "values:mean", "track:values"):
-                        # the second stream gets its own chunking: all of them for small n, else the same, the
-                        # opposite extreme and one chunk
+                        # the second stream gets its own chunking: every one for n <= 3, else the same cut set and the
+                        # complementary cut set
                         if n <= 3:
                             c2s = list(all_cuts(n))
                         else:
-                            c2s = [cuts, [], list(range(1, n))]
-                            c2s = [c for i, c in enumerate(c2s) if c not in c2s[:i]]
+                            c2s = [cuts, [i for i in range(1, n) if i not in cuts]]
                         for c2 in c2s:
                             yield {"kind": "genomic", "op": op, "counts": counts, "cuts": cuts, "cuts2": c2}
                     else:
@@ -761,14 +817,10 @@ def gen_file(tier, rng):
 
 # ----------------------------------------------------------------------------------------------------------------------
 CHECKS = {"reduce": check_reduce, "histauto": check_histauto, "kmers": check_kmers, "groupby": check_groupby,
-          "rechunk": check_rechunk, "graph": check_graph, "genomic": check_genomic}
+          "rechunk": check_rechunk, "graph": check_graph, "genomic": check_genomic,
+          "chrommap": check_chrommap}
 GENS = [("rechunk", gen_rechunk), ("reduce", gen_reduce), ("histauto", gen_histauto), ("graph", gen_graph),
-        ("kmers", gen_kmers), ("groupby", gen_groupby), ("genomic", gen_genomic), ("file", gen_file)]
-# share of the wall budget after which a kind stops (so that every kind is reached); the enumeration inside a kind goes
-# from small n to large n, so what is cut off is the largest sizes and `exhaustive` is set to False
-SHARE = {"rechunk": 0.10, "reduce": 0.30, "histauto": 0.32, "graph": 0.45, "kmers": 0.55, "groupby": 0.72, "genomic": 0.95,
-         "file": 1.0}
-
+        ("kmers", gen_kmers), ("groupby", gen_groupby), ("chrommap", gen_chrommap), ("genomic", gen_genomic), ("file", gen_file)]
 
 def run_case(col, case, tmp):
     if case["kind"] == "file":
@@ -778,7 +830,6 @@ def run_case(col, case, tmp):
 
 
 def run(tier="quick", seed=0):
-    import time
     col = Collector(PID, tier, seed,
                     "exhaustive: dataset of n entries x all 2^(n-1) cuts into consecutive non-empty chunks x every listed computation "
                     "(reductions, k-mer counts, group-by over every composition of n into groups, re-chunking for every n_entries, "
@@ -787,27 +838,30 @@ def run(tier="quick", seed=0):
                     "distinct = distinct (kind, computation, dataset, cut set); non-trivial = all (n=1 / one chunk are the base cases)",
                     budget_s=55 if tier == "quick" else 560)
     quick = tier == "quick"
+    nm = NMAX[tier]
+    maxper, gmax = genomic_bounds(tier)
     col.bounds = {
         "cuts": "all 2^(n-1) per dataset",
-        "reduce n": "1..%d exhaustive; sampled cuts for n in %s" % (7 if quick else 10, "12,16" if quick else "12,16,24,40"),
-        "reduce ops": list(REDUCE_OPS), "value patterns": list(PATTERNS), "containers": ["BnpStream", "generator", "NpDataclassStream attribute"],
-        "kmers n": "1..%d, k in 2,3" % (6 if quick else 9),
-        "groupby n": "1..%d x all compositions; n=10 x 4 structures x %s" % (6 if quick else 8, "25 sampled cuts" if quick else "all 512 cuts"),
+        "reduce n": "1..%d exhaustive; sampled cuts for n in %s" % (nm["reduce"], "12,16" if quick else "12,16,24,40"),
+        "reduce ops": list(REDUCE_OPS), "value patterns": list(PATTERNS),
+        "containers": ["BnpStream", "generator", "NpDataclassStream attribute"],
+        "kmers n": "1..%d, k in 2,3" % nm["kmers"],
+        "groupby n": "1..%d x all compositions into groups; n=10 x 4 group structures x %s"
+                     % (nm["groupby"], "25 sampled cuts" if quick else "all 512 cuts"),
         "groupby keys": list(KEYKINDS),
-        "rechunk": "n 1..%d x n_entries 1..n+1 x {chunk_entries, chunk_lines} x {ndarray, dataclass}" % (7 if quick else 10),
-        "graph n": "1..%d, ops %s" % (6 if quick else 9, list(GRAPH_OPS)),
-        "genomic": "1..4 chromosomes, 0..%d entries per chromosome, n <= %d; second stream: all cuts for n<=3; n=10 x 2 datasets x %s"
-                   % (2 if quick else 3, 5 if quick else 7, "10 sampled cuts" if quick else "all 512 cuts"),
+        "chrommap n": "1..%d x all compositions" % (5 if quick else 7),
+        "rechunk": "n 1..%d x n_entries 1..n+1 x {chunk_entries, chunk_lines} x {ndarray, dataclass}" % nm["rechunk"],
+        "graph n": "1..%d" % nm["graph"], "graph ops": list(GRAPH_OPS),
+        "genomic": "1..4 chromosomes, 0..%d entries per chromosome, n <= %s (by number of chromosomes); second stream: all cuts "
+                   "for n<=3, else same + complementary cut set; n=10 x 2 datasets x %s"
+                   % (maxper, gmax, "10 sampled cuts" if quick else "all 512 cuts"),
         "genomic ops": list(GENOMIC_OPS),
         "file": "BED files of 4..8 lines x every min_chunk_size 12..file size+2",
     }
-    budget = col.budget_s
     with TmpDir() as tmp:
         for kind, gen in GENS:
-            limit = SHARE[kind] * budget
-            for case in gen(tier, col.rng):
-                if time.time() - col.t0 > limit:
-                    col.exhaustive = False
+            for i, case in enumerate(gen(tier, col.rng)):
+                if i % 50 == 0 and col.out_of_time():   # safety net only; the bounds are sized to fit the budget
                     break
                 run_case(col, case, tmp)
     return col.result()
